@@ -210,36 +210,45 @@ inductive Beh
   | nest (k : String) (tB : String) (inner : KVs)
       -- first calls `Route(tB, inner-as-key-map)` (a nested, re-entrant evaluation whose
       -- result it discards), then answers `param.Get(k, "").(string)` from ITS OWN parameter
+  | keyd (k : String) (dflt : String)      -- `param.Get(k, dflt).(string)`: a default instance
+  | nilor (nilName : String) (k : String)  -- `if param == nil { return nilName }; param.Get(k, "").(string)`
   | empty
   | panic
   deriving DecidableEq, Repr
 
-/-- the key of its own parameter a function answers from -/
-def Beh.keyOf : Beh → Option String
-  | .key k => some k
-  | .nest k _ _ => some k
+/-- the key of its own parameter a function answers from, and the default it passes to `Get` -/
+def Beh.keyOf : Beh → Option (String × String)
+  | .key k => some (k, "")
+  | .nest k _ _ => some (k, "")
+  | .keyd k d => some (k, d)
+  | .nilor _ k => some (k, "")
   | _ => none
 
-/-- `param.Get(k, "").(string)`; `none` = it panicked -/
-def applyKey (k : String) : FParam → Option String
+/-- `param.Get(k, dflt).(string)`; `none` = it panicked -/
+def applyKey (k dflt : String) : FParam → Option String
   | .nilIface => none                         -- method call on a nil interface
   | .nilPtr => none                           -- nil pointer dereference in MapParam.Get
   | .kvs l =>
     match getKey l k with
-    | none => some ""                         -- the default ""
+    | none => some dflt                       -- the default
     | some (.str s) => some s
     | some .other => none                     -- failed type assertion
 
 /-- result of calling the function; `none` = it panicked.  Evaluations are pure: a
 nested `Route` call (which recovers its own panics) cannot influence what the outer
 function reads from its own parameter — that independence is exactly what the
-differential run checks against the code (a pooled / shared parameter wrapper breaks it). -/
+differential run checks against the code (a pooled / shared parameter wrapper breaks it).
+An EMPTY key map is `.kvs []` (a non-nil MapParam over it), never `.nilIface`: `keyd`
+answers its default there and `nilor` does not take its nil branch. -/
 def applyBeh : Beh → FParam → Option String
   | .const n, _ => some n
   | .empty, _ => some ""
   | .panic, _ => none
-  | .key k, fp => applyKey k fp
-  | .nest k _ _, fp => applyKey k fp
+  | .key k, fp => applyKey k "" fp
+  | .nest k _ _, fp => applyKey k "" fp
+  | .keyd k d, fp => applyKey k d fp
+  | .nilor nn _, .nilIface => some nn
+  | .nilor _ k, fp => applyKey k "" fp
 
 structure Rules where
   table : List (String × Beh)
